@@ -1,6 +1,6 @@
 (* C01 — explicit tree-automata inclusion is exact under every algorithm selection. Statements only. *)
 From Coq Require Import List NArith Bool.
-From V Require Import Sem Prod Incl TrimDefs TrimProofs Lang InclDefs InclProofs AntichainUp DownIncl BinopDefs BinopProofs ReduceDefs ReduceProofs DownInclSim SharedTable DownInclCacheDefs DownInclCacheProofs DownInclOptDefs DownInclOptProofs NegCache.
+From V Require Import Sem Prod Incl TrimDefs TrimProofs Lang InclDefs InclProofs AntichainUp AntichainUpW DownIncl BinopDefs BinopProofs ReduceDefs ReduceProofs DownInclSim SharedTable DownInclCacheDefs DownInclCacheProofs DownInclOptDefs DownInclOptProofs NegCache.
 
 (* the verdict function every selection must compute (prepare by trimming, then decide) is exact *)
 Theorem C01_exact : forall v A B, incl_model v A B = true <-> (forall t, accepts A t -> accepts B t).
@@ -32,6 +32,18 @@ Theorem C01_up_antichain_refines : forall A B, up_ac A B = incl_dec A B.
 Proof. exact up_antichain_refines. Qed.
 Theorem C01_up_antichain_exact : forall A B, up_ac A B = true <-> forall t, accepts A t -> accepts B t.
 Proof. exact up_antichain_exact. Qed.
+
+(* (A) the same algorithm as the code runs it: a work list, an antichain of processed pairs, the `contains` test on a popped pair,
+   the acceptance test that ends the run with "not included", `refine` (processed pairs subsumed by the new one are deleted) and
+   the consequences the new pair adds: a run that ends returns the decider's verdict, for every fuel *)
+Theorem C01_up_worklist_refines : forall A B fuel b, up_worklist A B fuel = Some b -> b = incl_dec A B.
+Proof. exact up_worklist_refines. Qed.
+Theorem C01_up_worklist_exact : forall A B fuel b, up_worklist A B fuel = Some b -> (b = true <-> forall t, accepts A t -> accepts B t).
+Proof. exact up_worklist_exact. Qed.
+(* a work list ordered by (size of the macro-state, state) WITHOUT a tie-break on the macro-state drops a pending pair: refuted *)
+Theorem C01_up_worklist_keyed_refuted :
+  up_worklist_keyed kA kB 20 = Some true /\ incl_dec kA kB = false /\ up_worklist kA kB 20 = Some false.
+Proof. exact up_worklist_keyed_refuted. Qed.
 
 (* (A) recursive downward algorithm (identity preorder, no caches): choice functions over the tuples of the bigger automaton,
    open goals on the call stack assumed (coinduction). Whatever the fuel, an answer is the truth; None = out of fuel. *)
@@ -110,3 +122,6 @@ Print Assumptions C01_down_opt_refines.
 Print Assumptions C01_down_opt_careless_refuted.
 Print Assumptions C01_neg_cache_sound.
 Print Assumptions C01_neg_cache_wrong_side_refuted.
+Print Assumptions C01_up_worklist_refines.
+Print Assumptions C01_up_worklist_exact.
+Print Assumptions C01_up_worklist_keyed_refuted.
